@@ -132,7 +132,8 @@ class MinErrorFlow():
             raise ValueError(f"flow_attr_origin must be either 'node' or 'edge', not {self.flow_attr_origin}")
 
         self.original_graph_copy = deepcopy(self.G_internal)
-        self.sparsity_lambda = sparsity_lambda
+        # (as Python floats: the solver's expressions accept Python numbers only, np.float32(0.5) raises from solve())
+        self.sparsity_lambda = float(sparsity_lambda)
         
         if nx.is_directed_acyclic_graph(self.G_internal):
             self.is_acyclic = True
@@ -177,6 +178,8 @@ class MinErrorFlow():
                 raise ValueError(f"different_flow_values_epsilon must be greater than or equal to 0, not {few_flow_values_epsilon}")
             if few_flow_values_epsilon == 0:
                 self.different_flow_values_epsilon = None        
+            else:
+                self.different_flow_values_epsilon = float(few_flow_values_epsilon)
 
         self._solution = None
         self._is_solved = None
